@@ -36,7 +36,7 @@ CLAIMS = {
  "C06": dict(
   category="other", design_ref="DESIGN.md section 3 (C06)",
   technique=TECH + "bounded plain harnesses on the real in-place scanners of topology-xml-nolibxml.c; hwloc__xml_import_distances of topology-xml.c against an executable contract of the XML state API (assume-guarantee between common code and backend)",
-  text="LEAVES ONLY, BOUNDED: the four in-place scanners every byte of a nolibxml import goes through first (hwloc__nolibxml_import_next_attr, _find_child, _close_tag, _get_content/_close_content) on an ARBITRARY 7-byte buffer plus terminating NUL (the shape backend_init allocates), with their cursors anywhere inside it: every read and write stays inside the buffer, the functions return -1/0/1, and every cursor and returned pointer stays inside the buffer; find_child guarantees, and next_attr assumes, that an attribute text ends before the final byte; hwloc_nolibxml_look_init on the document heads '<topology version=\"2.0\"', '<topology', '<roo', an XML declaration line or nothing, followed by 4 arbitrary bytes, returns 0/-1 and leaves its tag cursor inside the buffer (sscanf model for the one format it uses). Beyond the scanners: hwloc__xml_import_distances (topology-xml.c, common to both backends) is checked against the CONTRACT of the XML state API -- any sequence of <= 5 attributes, <= 3 children and arbitrary contents a backend may deliver (nbobjs = 2, every other number arbitrary): memory safe, returns 0/-1, hands at most one complete matrix to the core; hwloc__xml_import_userdata likewise (get_content delivers exactly the expected length, lengths < 2^32, callback present or not, decoded or not): memory safe, the callback receives `length` readable bytes, and close_content is only called after a successful get_content (ghost protocol flag of the API contract). The property itself (any XML never corrupts memory, hangs or yields a broken topology; libxml backend; diff XML) needs the whole import over an unbounded tree and is not decided by this technique.",
+  text="LEAVES ONLY, BOUNDED: the four in-place scanners every byte of a nolibxml import goes through first (hwloc__nolibxml_import_next_attr, _find_child, _close_tag, _get_content/_close_content) on an ARBITRARY 7-byte buffer plus terminating NUL (the shape backend_init allocates), with their cursors anywhere inside it: every read and write stays inside the buffer, the functions return -1/0/1, and every cursor and returned pointer stays inside the buffer; find_child guarantees, and next_attr assumes, that an attribute text ends before the final byte; hwloc_nolibxml_look_init on the document heads '<topology version=\"2.0\"', '<topology', '<roo', an XML declaration line or nothing, followed by 4 arbitrary bytes, returns 0/-1 and leaves its tag cursor inside the buffer (sscanf model for the one format it uses). Beyond the scanners: hwloc__xml_import_distances (topology-xml.c, common to both backends) is checked against the CONTRACT of the XML state API -- any sequence of <= 5 attributes, <= 3 children and arbitrary contents a backend may deliver (nbobjs = 2, every other number arbitrary): memory safe, returns 0/-1, hands at most one complete matrix to the core; hwloc__xml_import_userdata likewise (get_content delivers exactly the expected length, lengths < 2^32, callback present or not, decoded or not): memory safe, the callback receives `length` readable bytes, and close_content is only called after a successful get_content (ghost protocol flag of the API contract); hwloc__xml_import_cpukind likewise, with an ownership model: the cpuset it allocates is released exactly once on every path (freed or handed to the core). The property itself (any XML never corrupts memory, hangs or yields a broken topology; libxml backend; diff XML) needs the whole import over an unbounded tree and is not decided by this technique.",
   note="Trusted: strspn model, cbmc's strchr/strcmp/strncmp/strlen models; bounded (buffer 7+1 bytes, unwind 40; thorough tier 10+1)."),
  "C12": dict(
   category="proof", design_ref="DESIGN.md section 3 (C12)",
